@@ -109,7 +109,9 @@ CHECKS['C09'] = {
              "message has been handed over; req/rep: no reply and no rejection waits, a request waits only if no replier is bound. PROVED for both routers, from ANY state: a poll makes at most "
              "(data + queued + 1) * cap calls on its peers (data = calls that handed it a frame, queued = registrations waiting; cap linear in the numbers of sinks, streams and queued "
              "registrations) - a potential argument over the control points of the loop - and between two peer calls the loop makes finitely many moves (a strictly decreasing measure over "
-             "the internal moves: no spin with no replier, no requestor or nothing connected). NOT proved: that a poll which parks has asked every stream until Pending (trace predicate)."),
+             "the internal moves: no spin with no replier, no requestor or nothing connected). PROVED (pub/sub): whenever a poll is about to return Pending, a subscriber sink holds the task's waker or "
+             "EVERY publisher stream in the map does (each was asked in that poll and answered Pending last; the invariant follows the StreamMap pass through swap_remove under the cursor). "
+             "PROVED (request/reply): the same, and the bound replier's stream holds the waker too - what server_pending / stream_pending must mean whenever the loop leaves through them."),
     'note': ROUTER_NOTE,
     'design': 'DESIGN.md section 3 C09',
 }
